@@ -43,6 +43,13 @@ def space(tier, seed):
                     q = {'kind': 'select', 'items': lst, 'where': None, 'order': None, 'distinct': d, 'top': top, 'group': None,
                          'join': {'type': 'INNER JOIN', 'keys': [(F('a', 1), F('b', 1))]} if join else None}
                     cases.append((q, hdr, join))
+    # scale probes: fixed lists of 4-7 items
+    for hdr in (True, False):
+        base_items = list(common) + (named if hdr else [])
+        for idxs in ((0, 3, 5, 1), (9, 0, 11, 2, 6), (7, 8, 10, 4, 12, 3, 0), (5, 5, 5, 5, 5), (12, 11, 12, 11)):
+            lst = [base_items[i] for i in idxs]
+            for d, top in modes:
+                cases.append(({'kind': 'select', 'items': lst, 'where': None, 'order': None, 'distinct': d, 'top': top, 'group': None, 'join': None}, hdr, False))
     A_ = lambda kind, arg, sp='U': ('agg', kind, sp, arg)
     for hdr in (True, False):
         nm = ('named', 'a', n1, 'attr') if hdr else F('a', 1)
